@@ -37,9 +37,11 @@ class World:
         from pyrates.frontend.template.circuit import input_labels
         from pyrates.backend.base.base_backend import _compiled_module_cache
         files = sorted(f for f in os.listdir('.') if not f.startswith('_'))
-        fp = (tuple(sorted(OperatorTemplate.cache)), len(N.node_cache), tuple(sorted(N.node_labels.items())),
-              tuple(sorted((k, str(v)) for k, v in C.in_edge_indices.items())), tuple(sorted(input_labels.items())),
-              tuple(sorted(template_cache)), len(_compiled_module_cache), tuple(files),
+        fp = (tuple(sorted(map(repr, OperatorTemplate.cache))), len(N.node_cache),
+              tuple(sorted(map(repr, N.node_labels.items()))),
+              tuple(sorted(repr((k, str(v))) for k, v in C.in_edge_indices.items())),
+              tuple(sorted(map(repr, input_labels.items()))),
+              tuple(sorted(map(repr, template_cache))), len(_compiled_module_cache), tuple(files),
               tuple(sorted(m for m in sys.modules if m.startswith('pyrates_') or m.startswith('wf'))))
         return hashlib.sha256(repr(fp).encode()).hexdigest()[:12]
 
